@@ -1,0 +1,240 @@
+//go:build verif
+
+package sequtils
+
+// Bounded stand-ins for the Stitch/Compose/Trim clauses of C06. Only compiled with -tags verif.
+
+import (
+	"fmt"
+	"os"
+	"sort"
+	"testing"
+
+	"github.com/biogo/biogo/alphabet"
+	"github.com/biogo/biogo/feat"
+	"github.com/biogo/biogo/seq"
+	"github.com/biogo/biogo/seq/linear"
+)
+
+type verifFeat struct {
+	s, e int
+	ori  feat.Orientation
+}
+
+func (f verifFeat) Start() int                    { return f.s }
+func (f verifFeat) End() int                      { return f.e }
+func (f verifFeat) Len() int                      { return f.e - f.s }
+func (f verifFeat) Name() string                  { return "f" }
+func (f verifFeat) Description() string           { return "" }
+func (f verifFeat) Location() feat.Feature        { return nil }
+func (f verifFeat) Orientation() feat.Orientation { return f.ori }
+
+type verifSet []feat.Feature
+
+func (s verifSet) Features() []feat.Feature { return s }
+
+var verifComp = map[byte]byte{'a': 't', 'c': 'g', 'g': 'c', 't': 'a', 'n': 'n'}
+
+func verifFeatureSets(n, lo, hi int, oris []feat.Orientation, visit func([]verifFeat)) {
+	var cur []verifFeat
+	var rec func(k int)
+	rec = func(k int) {
+		if k == 0 {
+			visit(cur)
+			return
+		}
+		for s := lo; s <= hi; s++ {
+			for e := s; e <= hi; e++ {
+				for _, o := range oris {
+					cur = append(cur, verifFeat{s, e, o})
+					rec(k - 1)
+					cur = cur[:len(cur)-1]
+				}
+			}
+		}
+	}
+	for k := 0; k <= n; k++ {
+		rec(k)
+	}
+}
+
+// TestVerifBounded_C06_Stitch: letters at the union of the feature intervals clipped to the sequence, ascending.
+func TestVerifBounded_C06_Stitch(t *testing.T) {
+	cases, nontrivial := 0, 0
+	letters := "acgtnacg"
+	hi := 9
+	if os.Getenv("VERIF_TIER") == "thorough" {
+		hi = 11
+	}
+	for _, off := range []int{-3, 0, 2} {
+		verifFeatureSets(2, -2, hi, []feat.Orientation{feat.Forward}, func(fs []verifFeat) {
+			cases++
+			src := linear.NewSeq("s", alphabet.BytesToLetters([]byte(letters)), alphabet.DNA)
+			src.Offset = off
+			dst := linear.NewSeq("d", nil, alphabet.DNA)
+			set := verifSet{}
+			for _, f := range fs {
+				set = append(set, f)
+			}
+			if err := Stitch(dst, src, set); err != nil {
+				t.Fatalf("Stitch(%v) offset %d: %v", fs, off, err)
+			}
+			covered := map[int]bool{}
+			for _, f := range fs {
+				for p := f.s; p < f.e; p++ {
+					if p >= off && p < off+len(letters) {
+						covered[p] = true
+					}
+				}
+			}
+			var ps []int
+			for p := range covered {
+				ps = append(ps, p)
+			}
+			sort.Ints(ps)
+			want := ""
+			for _, p := range ps {
+				want += string(letters[p-off])
+			}
+			if len(want) > 0 {
+				nontrivial++
+			}
+			if got := string(alphabet.LettersToBytes(dst.Seq)); got != want {
+				t.Fatalf("Stitch(%v) of %q at offset %d = %q, want %q", fs, letters, off, got, want)
+			}
+			if string(alphabet.LettersToBytes(src.Seq)) != letters {
+				t.Fatalf("Stitch modified its source")
+			}
+		})
+	}
+	fmt.Printf("BOUNDED name=C06.stitch cases=%d nontrivial=%d exhaustive=true domain=%q\n", cases, nontrivial, "sequence of 8 letters, offsets {-3,0,2}, all sets of 0..2 features with coordinates in -2..9 (11 thorough), any order and overlap")
+}
+
+// TestVerifBounded_C06_Compose: concatenation, in feature order, of each clipped segment; reverse features reverse-complemented.
+func TestVerifBounded_C06_Compose(t *testing.T) {
+	cases, nontrivial := 0, 0
+	letters := "aaccggtt"
+	for _, off := range []int{-2, 0, 3} {
+		verifFeatureSets(2, off-1, off+len(letters)+1, []feat.Orientation{feat.Forward, feat.Reverse, feat.NotOriented}, func(fs []verifFeat) {
+			for _, f := range fs {
+				// the statement covers features that intersect or touch the sequence
+				if f.e < off || f.s > off+len(letters) {
+					return
+				}
+			}
+			cases++
+			src := linear.NewSeq("s", alphabet.BytesToLetters([]byte(letters)), alphabet.DNA)
+			src.Offset = off
+			dst := linear.NewSeq("d", nil, alphabet.DNA)
+			set := verifSet{}
+			for _, f := range fs {
+				set = append(set, f)
+			}
+			if err := Compose(dst, src, set); err != nil {
+				t.Fatalf("Compose(%v): %v", fs, err)
+			}
+			want := ""
+			for _, f := range fs {
+				s, e := f.s, f.e
+				if s < off {
+					s = off
+				}
+				if e > off+len(letters) {
+					e = off + len(letters)
+				}
+				seg := ""
+				if s < e {
+					seg = letters[s-off : e-off]
+				}
+				if f.ori == feat.Reverse {
+					rc := ""
+					for i := len(seg) - 1; i >= 0; i-- {
+						rc += string(verifComp[seg[i]])
+					}
+					seg = rc
+				}
+				want += seg
+			}
+			if len(fs) == 2 {
+				nontrivial++
+			}
+			if got := string(alphabet.LettersToBytes(dst.Seq)); got != want {
+				t.Fatalf("Compose(%v) of %q at offset %d = %q, want %q", fs, letters, off, got, want)
+			}
+			if string(alphabet.LettersToBytes(src.Seq)) != letters {
+				t.Fatalf("Compose modified its source")
+			}
+		})
+	}
+	fmt.Printf("BOUNDED name=C06.compose cases=%d nontrivial=%d exhaustive=true domain=%q\n", cases, nontrivial, "sequence \"aaccggtt\", offsets {-2,0,3}, all lists of 0..2 features touching the sequence with coordinates within one position outside it, orientations forward/reverse/none")
+}
+
+type verifQuality struct {
+	start int
+	errs  []float64
+}
+
+func (q verifQuality) Start() int             { return q.start }
+func (q verifQuality) End() int               { return q.start + len(q.errs) }
+func (q verifQuality) Len() int               { return len(q.errs) }
+func (q verifQuality) Name() string           { return "q" }
+func (q verifQuality) Description() string    { return "" }
+func (q verifQuality) Location() feat.Feature { return nil }
+func (q verifQuality) EAt(i int) float64      { return q.errs[i-q.start] }
+
+// TestVerifBounded_C06_Trim: the returned window maximises the summed (limit - error probability) over all windows.
+func TestVerifBounded_C06_Trim(t *testing.T) {
+	cases, nontrivial := 0, 0
+	levels := []float64{0.0, 0.25, 0.45, 0.75, 1.0}
+	limit := 0.5
+	for _, start := range []int{0, 5} {
+		for n := 0; n <= 5; n++ {
+			total := 1
+			for i := 0; i < n; i++ {
+				total *= len(levels)
+			}
+			for code := 0; code < total; code++ {
+				cases++
+				errs := make([]float64, n)
+				c := code
+				for i := range errs {
+					errs[i] = levels[c%len(levels)]
+					c /= len(levels)
+				}
+				q := verifQuality{start, errs}
+				s, e := Trim(q, limit)
+				best := 0.0
+				for a := 0; a <= n; a++ {
+					sum := 0.0
+					for b := a; b <= n; b++ {
+						if sum > best {
+							best = sum
+						}
+						if b < n {
+							sum += limit - errs[b]
+						}
+					}
+				}
+				if best > 0 {
+					nontrivial++
+				}
+				if s > e {
+					t.Fatalf("Trim(%v, %v) = (%d,%d): start after end", errs, limit, s, e)
+				}
+				if e > s && (s < start || e > start+n) {
+					t.Fatalf("Trim(%v, %v) = (%d,%d): outside [%d,%d)", errs, limit, s, e, start, start+n)
+				}
+				got := 0.0
+				for p := s; p < e; p++ {
+					got += limit - errs[p-start]
+				}
+				if got < best-1e-9 {
+					t.Fatalf("Trim(%v, %v) = (%d,%d) with sum %v, but a window with sum %v exists", errs, limit, s, e, got, best)
+				}
+			}
+		}
+	}
+	fmt.Printf("BOUNDED name=C06.trim cases=%d nontrivial=%d exhaustive=true domain=%q\n", cases, nontrivial, "all error vectors of length 0..5 over {0,0.25,0.45,0.75,1}, limit 0.5, start 0 and 5")
+}
+
+var _ seq.Sequence = (*linear.Seq)(nil)
